@@ -535,6 +535,45 @@ static void op_dimension(obuf *o, const uint64_t *v, size_t n, int arg) {
     o_bytes(o, MAT, 2 + (size_t)(R * C));
 }
 
+static void op_dimension_loaded(obuf *o, const uint64_t *v, size_t n, int arg) {
+    /* a stored matrix loaded into a reused work buffer (its header is copied in, not encoded in place), then read and
+     * written cell by cell */
+    static const int SH[4][2] = {{4, 10}, {4, 20}, {6, 9}, {3, 7}};
+    static uint8_t MAT[2048];
+    int R = SH[arg & 3][0], C = SH[arg & 3][1], dbl = arg >> 2;
+    size_t ew = dbl ? 8 : 2;
+    uint8_t stored[2048];
+    memset(stored, 0, sizeof stored);
+    varintDimensionPair dim = varintDimensionPairEncode(stored, (size_t)R, (size_t)C);
+    for (size_t i = 0; i < (size_t)(R * C) * ew; i++) {
+        stored[2 + i] = (uint8_t)(i * 7 + v[i % n]);
+    }
+    memcpy(MAT, stored, sizeof MAT);
+    o_u64(o, (uint64_t)dim);
+    for (int r = 0; r < R; r++) {
+        for (int c = 0; c < C; c++) {
+            if (dbl) {
+                double d = varintDimensionPairEntryGetDouble(MAT, (size_t)r, (size_t)c, dim);
+                uint64_t bits;
+                memcpy(&bits, &d, 8);
+                o_u64(o, bits);
+            } else {
+                o_u64(o, varintDimensionPairEntryGetUnsigned(MAT, (size_t)r, (size_t)c, VARINT_WIDTH_16B, dim));
+            }
+        }
+    }
+    for (int r = R - 1; r >= 0; r--) {
+        for (int c = 0; c < C; c += 2) {
+            if (dbl) {
+                varintDimensionPairEntrySetDouble(MAT, (size_t)r, (size_t)c, 0.5 + r * 100 + c, dim);
+            } else {
+                varintDimensionPairEntrySetUnsigned(MAT, (size_t)r, (size_t)c, (uint64_t)(r * 1000 + c), VARINT_WIDTH_16B, dim);
+            }
+        }
+    }
+    o_bytes(o, MAT, 2 + (size_t)(R * C) * ew);
+}
+
 typedef struct {
     const char *name;
     opfn fn;
@@ -603,6 +642,11 @@ static void build_ops(void) {
     add("dimension.bit/byte matrix 4x10", op_dimension, 0, 4, 0);
     add("dimension.bit/byte matrix 4x12", op_dimension, 1, 4, 0);
     add("dimension.bit/byte matrix 6x9", op_dimension, 2, 4, 0);
+    add("dimension.loaded u16 matrix 4x10", op_dimension_loaded, 0, 4, 0);
+    add("dimension.loaded u16 matrix 4x20", op_dimension_loaded, 1, 4, 0);
+    add("dimension.loaded u16 matrix 6x9", op_dimension_loaded, 2, 4, 0);
+    add("dimension.loaded double matrix 3x7", op_dimension_loaded, 3 | 4, 4, 0);
+    add("dimension.loaded double matrix 4x10", op_dimension_loaded, 0 | 4, 4, 0);
 }
 
 static void run_op(int i, obuf *o) {
